@@ -5,10 +5,10 @@ package main
 // TLC against the reference semantics spec/ZSem.tla (spec/SemTrace.tla).
 
 import (
-	"strings"
 	"encoding/json"
 	"flag"
 	"fmt"
+	"strings"
 
 	zygo "github.com/glycerine/zygomys/v9/zygo"
 )
@@ -139,7 +139,7 @@ func init() {
 	register("sem", "C02/C03: core-language programs vs the reference semantics", func(args []string) int {
 		var slices string
 		c := commonFlags("sem", args, func(fs *flag.FlagSet) {
-			fs.StringVar(&slices, "slices", "shapes,control,loops,calls,data,heap,scoping,mixed", "comma separated slices")
+			fs.StringVar(&slices, "slices", "shapes,scopeshapes,control,loops,calls,data,heap,scoping,mixed", "comma separated slices")
 		})
 		w := newWriter(c.out)
 		defer w.close()
